@@ -195,8 +195,8 @@ pub fn c08() -> PropDef {
                 TermClass::ShortCircuit,
             ];
         }),
-        quick: (2000, 1000),
-        thorough: (30000, 8000),
+        quick: (6000, 3000),
+        thorough: (45000, 12000),
         dense: dense_c08,
         check: check_c08,
         adjust: no_adjust,
@@ -435,8 +435,8 @@ pub fn c11() -> PropDef {
             c.src = SrcClass::Deep;
             c.terms = vec![TermClass::Collect, TermClass::CollectX, TermClass::Count, TermClass::ReduceFamily, TermClass::ShortCircuit];
         }),
-        quick: (400, 600),
-        thorough: (5000, 6000),
+        quick: (800, 1500),
+        thorough: (6000, 9000),
         dense: dense_c11,
         check: check_c11,
         adjust: adjust_c11,
